@@ -6,6 +6,8 @@
 //   S  the Lean spec:       Spec.Connect.connectBlock (same oracle)
 //   G  the Go reference:    refConnect (ref.go) — sequential map semantics; THIS is the property predicate
 // and after it the tip and the full UTXO dump of R are compared with M, S and G.
+// Blocks that reach the active chain through a re-organisation (stored on a side branch, connected by MoveToBlock /
+// ParseTillBlock) are judged by R against G only — see reorg.go.
 //   R accepts ∧ G refuses, R refuses but tip/dump changed, R accepts with a dump ≠ G   → property failure (PropFail)
 //   R ≠ M (verdict, dump, sigop cost), S ≠ G                                             → broken tie (TieFail)
 package main
@@ -21,6 +23,7 @@ import (
 	"time"
 
 	"github.com/piotrnar/gocoin/lib/btc"
+	"github.com/piotrnar/gocoin/lib/chain"
 	"github.com/piotrnar/gocoin/lib/script"
 	"github.com/piotrnar/gocoin/lib/utxo"
 	"verif/chainkit"
@@ -39,6 +42,10 @@ type replayDoc struct {
 	Opts      epOpts   `json:"opts"`
 	History   []string `json:"history"`   // accepted blocks (hex), in order, on top of the synthetic genesis
 	Candidate string   `json:"candidate"` // the block under test (hex)
+	// side-branch scenario (reorg.go): T1..Td extend the last history block P one after the other; B1' is T1's
+	// sibling (parent P), B2' extends B1', …; the last side block gives the side branch more work than Td
+	MainBranch []string `json:"main_branch,omitempty"` // T1..Td
+	SideBranch []string `json:"side_branch,omitempty"` // B1'..B(d+1)'
 	Real      string   `json:"real"`
 	Model     string   `json:"model"`
 	Ref       string   `json:"reference"`
@@ -66,6 +73,7 @@ type episode struct {
 	redeems map[string]*wcoin // script hex -> template carrying redeem info
 	dead    bool
 	nblocks int
+	special []*scoin // coins with height-gated scripts (reorg.go)
 }
 
 func newEpisode(r *vlib.Run, o *vlib.Oracle, g *vlib.Rng, opts epOpts) *episode {
@@ -96,7 +104,11 @@ func newEpisode(r *vlib.Run, o *vlib.Oracle, g *vlib.Rng, opts epOpts) *episode 
 func (e *episode) close() { e.k.Close() }
 
 // parse builds the judge-independent description of a candidate (own parse of the raw bytes).
-func (e *episode) parse(raw []byte) *cand {
+func (e *episode) parse(raw []byte) *cand { return e.parseOn(raw, e.k.Ch.LastBlock(), e.ref) }
+
+// parseOn: the same for a candidate whose parent is `parent` (not necessarily the tip), against the coin map `ref`
+// that describes the state after `parent` (side-branch scenarios, reorg.go).
+func (e *episode) parseOn(raw []byte, parent *chain.BlockTreeNode, ref utxoMap) *cand {
 	bl, err := btc.NewBlock(raw)
 	if err != nil {
 		return nil
@@ -104,7 +116,6 @@ func (e *episode) parse(raw []byte) *cand {
 	if bl.BuildTxList() != nil {
 		return nil
 	}
-	parent := e.k.Ch.LastBlock()
 	c := &cand{hash: bl.Hash.Hash[:], height: parent.Height + 1, time: bl.BlockTime(), mtp: parent.GetMedianTimePast()}
 	c.p2sh = true
 	c.wit = !e.opts.NoSegWit
@@ -126,7 +137,7 @@ func (e *episode) parse(raw []byte) *cand {
 					if a, ok := over[in.Input]; ok {
 						cn = a
 					} else {
-						cn = e.ref[in.Input]
+						cn = ref[in.Input]
 					}
 				}
 				found[j] = cn
@@ -332,7 +343,7 @@ func errClass(s string) string {
 	case strings.Contains(s, "RPC_Result:"):
 		return s[strings.Index(s, "RPC_Result:")+11:]
 	}
-	for _, k := range []string{"double spend inside", "Unknown input", "vout already spent", "Vout too big", "tx VOut too big", "own coinbase", "prematured", "more spent", "VerifyScripts failed", "out:", "Coinbase script", "panic"} {
+	for _, k := range []string{"double spend inside", "Unknown input", "vout already spent", "Vout too big", "tx VOut too big", "own coinbase", "prematured", "more spent", "VerifyScripts failed", "out:", "Coinbase script", "MoveToBlock failed", "panic"} {
 		if strings.Contains(s, k) {
 			return strings.ReplaceAll(strings.TrimSuffix(k, ":"), " ", "-")
 		}
@@ -424,21 +435,26 @@ func main() {
 		runReplay(r, o)
 	} else {
 		t0 := time.Now()
-		if os.Getenv("VERIF_C04_ONLY") != "episodes" {
+		if only := os.Getenv("VERIF_C04_ONLY"); only != "episodes" && only != "reorg" {
 			directStreams(r, o)
 		}
 		r.Extra["direct_streams_s"] = time.Since(t0).Seconds()
 		t0 = time.Now()
-		if os.Getenv("VERIF_C04_ONLY") != "direct" {
+		if only := os.Getenv("VERIF_C04_ONLY"); only != "direct" && only != "reorg" {
 			runEpisodes(r, o)
 		}
 		r.Extra["episodes_s"] = time.Since(t0).Seconds()
+		t0 = time.Now()
+		if only := os.Getenv("VERIF_C04_ONLY"); only == "" || only == "reorg" {
+			runReorgEpisodes(r, o)
+		}
+		r.Extra["reorg_episodes_s"] = time.Since(t0).Seconds()
 		r.Extra["oracle_block_s"] = tOracle.Seconds()
 		r.Extra["real_submit_s"] = tReal.Seconds()
 	}
 	restoreStdout()
 	stopProf()
-	r.Finish("a case is one candidate block judged by real code, Lean model, Lean spec and Go reference on a generated chain state (distinct = distinct block bytes), or one direct comparison of a sigop counter / GetBlockReward on a generated script / height (distinct = distinct input)",
+	r.Finish("a case is one candidate block judged by real code, Lean model, Lean spec and Go reference on a generated chain state (distinct = distinct block bytes), or one side-branch scenario (a stored side branch carrying one transaction that breaks / keeps one height-gated script rule overtakes the active chain; real code vs Go reference; distinct = distinct side-branch bytes), or one direct comparison of a sigop counter / GetBlockReward on a generated script / height (distinct = distinct input)",
 		"C04: Lean model of commitTxs/CheckTransaction/sigop counters/UnspentGet tied to the real Chain.CheckBlock+AcceptBlock by differential runs on chainkit chains; property predicate = independent sequential ConnectBlock (Go) cross-checked against the Lean spec")
 }
 
@@ -455,6 +471,7 @@ func runReplay(r *vlib.Run, o *vlib.Oracle) {
 		fmt.Fprintln(os.Stderr, "replay file has no C04 block case (proof-level violation?)")
 		directStreams(r, o)
 		runEpisodes(r, o)
+		runReorgEpisodes(r, o)
 		return
 	}
 	e := newEpisode(r, o, r.Rng, w.Replay.Opts)
@@ -464,6 +481,15 @@ func runReplay(r *vlib.Run, o *vlib.Oracle) {
 		if oc := e.judge("replay-history", raw, i == len(w.Replay.History)-1); oc == nil || !oc.accepted {
 			fmt.Println("replay: history block", i, "not accepted:", oc)
 		}
+	}
+	if len(w.Replay.SideBranch) > 0 {
+		e.dead = false
+		nv := r.Violations()
+		e.replaySide(w.Replay)
+		restoreStdout()
+		tip, h := e.k.Tip()
+		fmt.Printf("replay: kind=%s main=%d side=%d blocks, final tip %s/%d, new violations: %d\n", w.Replay.Kind, len(w.Replay.MainBranch), len(w.Replay.SideBranch), tip, h, r.Violations()-nv)
+		return
 	}
 	raw, _ := hex.DecodeString(w.Replay.Candidate)
 	e.dead = false
